@@ -19,7 +19,12 @@ LEMMAS = [
      "status": "proved by induction in SMT (base + step obligations, part of this run)"},
     {"id": "L8", "statement": "closed form of the statement (segment k of a row tells whether the node's ancestor at depth k has a following "
      "sibling; rows exist exactly for relative depth < max(maxlevel, 1); shape reconstructible from the text) from the recursive ROWS",
-     "status": "assumed bridge; validated by the bounded stand-in, which compares the real rows with the closed form directly"},
+     "status": "for childiter = identity: " + driver.lean_status("L8_render_rows.lean") + " (L8a: row i belongs to the i-th visited position "
+     "and has one flag per ancestor level; L8b: flag k says that the ancestor at depth k+1 is not the last child of the one at depth k; "
+     "L8c: the rows' nodes are the pre-order of the tree pruned to relative depth < max(maxlevel, 1)). The Lean rows/krows are the "
+     "equations of ROWS/KROWS in contracts/render.py written a second time (correspondence by review); a childiter that reorders is "
+     "covered by reading `children` as childiter(children); the reconstruction of the shape from the *text* additionally needs the "
+     "style strings to be distinguishable, which the bounded stand-in checks for the four built-in styles"},
 ]
 
 
